@@ -2,7 +2,7 @@
 from units_bn_api import NB
 
 
-SQMAX = __import__('os').environ.get('VERIF_SQR_MAX', '6')
+SQMAX = __import__('os').environ.get('VERIF_SQR_MAX', '10')
 
 
 def register(add):
@@ -12,8 +12,8 @@ def register(add):
     add('bn_sqrn_low.none@w8', ['C01', 'C08'], 'bn_sqrn_low', sources=[SQL], headers=['bn_sqr.h'], defines=['VC_LSHAPE=VC_L_NONE', 'VC_SQR_MAX=' + SQMAX, 'VC_FIXED_DIGBUF'],
          decls='dig_t *c; const dig_t *a; size_t n;', call='bn_sqrn_low(c, a, n)', route='bounded', unwind=N, conf='w8', timeout=600,
          remove_bodies=['bn_sqra_low'],
-         bound_note='operand of at most 3 digits (result 6 digits: the product-scanning kernels time out beyond); digit product uninterpreted', note=NOTE)
+         bound_note='operand of at most RLC_BN_SIZE/2 = 5 digits (result 10 digits = the precision of configuration w8), loops unwound completely; digit product uninterpreted', note=NOTE)
     for sh, mac in [('none', 'VC_S2_NONE'), ('ca', 'VC_S2_CA')]:
         add('bn_sqr_comba.%s@w8' % sh, ['C01', 'C08'], 'bn_sqr_comba', sources=[SQR, MEM], headers=['bn_sqr.h'], defines=['VC_SHAPE_bn_sqr_comba=' + mac, 'VC_SQR_MAX=' + SQMAX],
             decls='bn_st *c, *a;', call='bn_sqr_comba(c, a)', replace=['bn_sqrn_low', 'bn_trim', 'bn_copy'], route='bounded', unwind=N, conf='w8', timeout=600, flags=['--object-bits', '9'],
-            bound_note='used(a) <= 3 digits (bound of the kernel contract); digit product uninterpreted', note=NOTE)
+            bound_note='used(a) <= RLC_BN_SIZE/2 = 5 digits: every operand whose square fits the precision of configuration w8; digit product uninterpreted', note=NOTE)
